@@ -170,6 +170,55 @@ def mk_fits(rng, kind=None, pointing=None, scale=None, rot=None, crpix=None, sha
     return FITSWCSCorrector(w), info
 
 
+_QD = {}
+
+
+def quad_distortion(k, c):
+    """separable quadratic detector distortion x' = x + k (x - c)^2 with its exact inverse (astropy models,
+    defined on first use): the local scale of the mock gWCS then varies over the detector (~2 % per 1000
+    pixels), as it does for every real instrument"""
+    if not _QD:
+        from astropy.modeling import Model, Parameter
+
+        class QuadDist(Model):
+            n_inputs = 2
+            n_outputs = 2
+            _separable = True
+            k = Parameter(default=0.0)
+            c = Parameter(default=0.0)
+
+            @staticmethod
+            def evaluate(x, y, k, c):
+                u = x - c
+                v = y - c
+                return x + k * u * u, y + k * v * v
+
+            @property
+            def inverse(self):
+                return _QD['inv'](k=self.k.value, c=self.c.value)
+
+        class QuadDistInv(Model):
+            n_inputs = 2
+            n_outputs = 2
+            _separable = True
+            k = Parameter(default=0.0)
+            c = Parameter(default=0.0)
+
+            @staticmethod
+            def evaluate(x, y, k, c):
+                u = (-1.0 + np.sqrt(1.0 + 4.0 * k * (x - c))) / (2.0 * k)
+                v = (-1.0 + np.sqrt(1.0 + 4.0 * k * (y - c))) / (2.0 * k)
+                return u + c, v + c
+
+            @property
+            def inverse(self):
+                return _QD['fwd'](k=self.k.value, c=self.c.value)
+
+        _QD['fwd'] = QuadDist
+        _QD['inv'] = QuadDistInv
+    return _QD['fwd'](k=k, c=c)
+
+
 def mk_jwst(rng, vacorr=None, pointing=None):
     """JWSTWCSCorrector on a mock gWCS pipeline built as the repo's test helper builds it"""
     from tweakwcs.tests.helper_correctors import make_mock_jwst_wcs
@@ -184,18 +233,25 @@ def mk_jwst(rng, vacorr=None, pointing=None):
     cd = build_matrix(r, r + rng.uniform(-2, 2), scale, scale)
     vacorr = (rng.random() < 0.5) if vacorr is None else vacorr
     vak = 1.0
-    if vacorr and rng.random() < 0.6:
-        # a velocity-aberration step that is NOT the identity (the repo's mock uses Identity(2))
+    nonid_va = vacorr and rng.random() < 0.6
+    distk = rng.choice([-1, 1]) * rng.uniform(3e-6, 1.2e-5) if rng.random() < 0.5 else 0.0
+    if nonid_va or distk:
         import gwcs
         from astropy.modeling.models import Scale
         from tweakwcs.tests.helper_correctors import make_mock_jwst_pipeline
-        vak = 1.0 + rng.choice([-1, 1]) * rng.uniform(2e-5, 3e-4)
         pipeline = make_mock_jwst_pipeline(v2ref=v2, v3ref=v3, roll=roll, crpix=[512.0, 512.0], cd=cd,
-                                           crval=[ra, dec], enable_vacorr=True)
-        frm, _tr = pipeline[1]
-        va = Scale(vak) & Scale(vak)
-        va.name = 'mock_velocity_aberration'
-        pipeline[1] = (frm, va)
+                                           crval=[ra, dec], enable_vacorr=vacorr)
+        if nonid_va:
+            # a velocity-aberration step that is NOT the identity (the repo's mock uses Identity(2))
+            vak = 1.0 + rng.choice([-1, 1]) * rng.uniform(2e-5, 3e-4)
+            frm, _tr = pipeline[1]
+            va = Scale(vak) & Scale(vak)
+            va.name = 'mock_velocity_aberration'
+            pipeline[1] = (frm, va)
+        if distk:
+            # a detector distortion: the local scale depends on the detector position
+            frm0, det2v23 = pipeline[0]
+            pipeline[0] = (frm0, quad_distortion(distk, 512.0) | det2v23)
         w = gwcs.wcs.WCS(pipeline)
         w.bounding_box = ((-0.5, 1024 - 0.5), (-0.5, 2048 - 0.5))
         w.array_shape = (2048, 1024)
@@ -203,7 +259,7 @@ def mk_jwst(rng, vacorr=None, pointing=None):
         w = make_mock_jwst_wcs(v2ref=v2, v3ref=v3, roll=roll, crpix=[512.0, 512.0], cd=cd,
                                crval=[ra, dec], enable_vacorr=vacorr)
     info = {'kind': 'jwst', 'crval': [ra, dec], 'v2': v2, 'v3': v3, 'roll': roll, 'scale_arcsec': scale_as,
-            'vacorr': vacorr, 'va_scale': vak}
+            'vacorr': vacorr, 'va_scale': vak, 'distortion_k': distk}
     wi = {'v2_ref': v2, 'v3_ref': v3, 'roll_ref': roll}
     return JWSTWCSCorrector(w, wi), info
 
